@@ -13,8 +13,16 @@ fn polys_json(ps: &[affinitree::linalg::affine::Polytope], q: f64) -> Value {
 }
 
 pub fn run(sc: &Value, id: usize, out: Out) {
+    match sc.get("k").and_then(|v| v.as_u64()).unwrap_or(2) {
+        2 => run_k::<2>(sc, id, out),
+        4 => run_k::<4>(sc, id, out),
+        k => panic!("unsupported K {}", k),
+    }
+}
+
+fn run_k<const K: usize>(sc: &Value, id: usize, out: Out) {
     let q = sc.get("q").and_then(|v| v.as_f64()).unwrap_or(1.0);
-    let mut t: AffTree<2> = build(sc["lhs"].as_array().unwrap());
+    let mut t: AffTree<K> = build(sc["lhs"].as_array().unwrap());
     let exps = crate::afftree::apply_pscale(&mut t, sc.get("pscale").and_then(|v| v.as_str()).unwrap_or(""));
     let tj = crate::afftree::tree_json_ps(&t, q, &exps);
     // reported path polytopes are scaled back with the exponent of the decision they come from (path edge j belongs to the j-th node of the path)
@@ -129,7 +137,7 @@ pub fn run(sc: &Value, id: usize, out: Out) {
         });
         r.unwrap_or(json!({"x": p, "d": 2, "labels": [], "node": -1, "same": false, "path": []}))
     }).collect();
-    out(json!({"fam": "regions", "sc": id, "first": true, "k": 2, "q": q as i64, "tree": tj, "sched": sched, "den": den,
+    out(json!({"fam": "regions", "sc": id, "first": true, "k": K, "q": q as i64, "tree": tj, "sched": sched, "den": den,
                "gen": match gen_run { Ok(s) => json!({"res": "ok", "steps": s}), Err(_) => json!({"res": "panic", "steps": []}) },
                "iter": match iter_run { Ok(v) => json!({"res": "ok", "run": v}), Err(_) => json!({"res": "panic", "run": {"hint0": [0, -1], "steps": []}}) },
                "subs": subs, "finds": finds}));
